@@ -184,7 +184,7 @@ class _STIXBase(collections.abc.Mapping):
             allow_custom = True
 
         all_custom_prop_names = (custom_kwargs | custom_props.keys()) - \
-            self._properties.keys()
+            self._properties.keys() - registered_toplevel_extension_props.keys()
         if all_custom_prop_names:
             if not isinstance(self, stix2.v20._STIXBase20):
                 for prop_name in all_custom_prop_names:
